@@ -151,7 +151,7 @@ def check(ctx):
     for s in inv.attr_uses(P, '_value_history'):
         role = s.extra['role']
         o.count()
-        okh = (role[0] == 'store' and s.cls is A and s.func.name in ('__init__', 'initialize')) or (role[0] == 'method' and role[1] == 'append' and s.cls is A and s.func.name in inv.covered(P, {'add_value'})) \
+        okh = (role[0] == 'store' and s.cls is A and s.func.name in inv.covered(P, {'__init__', 'initialize'})) or (role[0] == 'method' and role[1] == 'append' and s.cls is A and s.func.name in inv.covered(P, {'add_value'})) \
             or role[0] in ('return', 'iter', 'test', 'subscript-load') or (role[0] == 'method' and role[1] == 'copy')
         if not okh:
             o.fail(P, s.ctx, s.stmt, f'the value history is changed outside add_value ({role[0]})', file=s.mod.path, line=s.line)
@@ -181,8 +181,19 @@ def check(ctx):
     init = P.method(A, '__init__')[1]
     o.count()
     vparam = [a.arg for a in init.args.args][2]
-    if not any(isinstance(s_, ast.Assign) and {ast.unparse(t) for t in s_.targets} >= {'self._value'} and ast.unparse(s_.value) == vparam for s_ in ast.walk(init)):
-        o.fail(P, 'Asset.__init__', f'self._value = self._initial_value = {vparam}', 'the starting value of an asset is not the constructor argument', file=A.mod.path, line=init.lineno)
+    # decided on the constructor's paths (helpers inlined): at every exit both the value and the kept starting value are the argument
+    gi = ctx.graph(A, '__init__')
+    ani = Analysis(P, gi, ['_value', '_initial_value'])
+    s0 = State({'_value': TOP, '_initial_value': TOP})
+    s0.locals[(gi.top.id, vparam)] = 'v0'
+    resi = ctx.explore(ani, [s0])
+    o.require(resi.exits(), 'Asset.__init__ has no normal exit')
+    for st in resi.exits():
+        if st.fields['_value'] != 'v0' or st.fields['_initial_value'] != 'v0':
+            o.fail(P, 'Asset.__init__', f'self._value = self._initial_value = {vparam}', 'the starting value of an asset is not the constructor argument '
+                   f'(at an exit of the constructor: _value holds {st.fields["_value"]}, _initial_value holds {st.fields["_initial_value"]})', file=A.mod.path, line=init.lineno,
+                   path=resi.path_lines(gi.exit, st))
+            break
 
     # ---- C16.2 -----------------------------------------------------------------------------------
     o = Ob('C16.2', 'K6', 'add_cost(label, cost) is add_value(label, -cost)')
